@@ -164,7 +164,7 @@ def _td7_loop(rep, tier):
                     ctx.check(len(copies.get(k, [])) == 0, "checkpoint-changes-only-at-assessments")
             ctx.check(total_released + pending == tr.env.n_steps, "released+pending=executed(no-step-lost-or-duplicated)")
         return run
-    for K in ([3] if tier == "quick" else [3, 4, 5]):
+    for K in ([3] if tier == "quick" else [3, 4]):
         rep.run(f"train_td7[use_checkpoints,K={K}]", prog(K), max_paths=200000 if tier != "quick" else 8000, fn="rl_blox.algorithm.td7.train_td7 + real assess_performance_and_checkpoint", site_of=lambda label: f"train_td7:{label}")
     rep.r.bounds["train_td7_loop"] = "K<=6 steps, learning_starts=0, symbolic flags/rewards, symbolic window size and threshold"
 
